@@ -7,7 +7,9 @@ Model of the saved curation state (property C10), phylib/io/model.py + phylib/ut
 reload = `load_model`.  The dataset directory is a finite map from file names to contents; the arrays no step
 of a history writes (spike templates, spike times, the raw recording, the templates through the per-template
 channel order) are the component `fixed`; the subset store is the three files of the C03 model
-(`C03.saveSubset` / `C03.loadSubset`).
+(`C03.saveSubset` / `C03.loadSubset`); the files that can hold the spike-cluster assignments are kept BY NAME
+(`assign`): the loader and `save_spike_clusters` each resolve a file with `_find_path`, and a load that finds none
+creates `spike_clusters.npy` (the one write a reload performs in this model).
 -/
 namespace PhyVerif.C10
 open PhyVerif.C18 (Cell)
@@ -21,6 +23,11 @@ deriving Repr, DecidableEq
 /-- a metadata file name: stem and extension (`true` = `.tsv`, `false` = `.csv`) -/
 abbrev FName := String × Bool
 
+/-- name of a file that can hold the spike-cluster assignments: `none` = `spike_clusters.npy` (KiloSort / phy),
+`some label` = `spikes.clusters<label>.npy` — what the loader's glob `spikes.clusters*.npy` matches: label `""` is the
+plain ALF name, `".probe00"` a labelled ALF file -/
+abbrev CName := Option String
+
 /-- the part of the dataset directory that no operation of a history writes -/
 structure Fixed (α : Type) where
   spikeTemplates : List Nat                 -- spike_templates.npy
@@ -30,10 +37,11 @@ structure Fixed (α : Type) where
   orders : List (List Int)                  -- per template: `get_template(t).channel_ids` (templates.npy & co, C05)
   nsw : Nat                                 -- n_samples_waveforms (templates.shape[1])
   nClosest : Nat                            -- n_closest_channels (params.py, default 12)
+  hasRaw : Bool                             -- `model.traces is not None`: params.py names a raw data file that exists
 deriving Repr, DecidableEq
 
 structure Disk (α : Type) where
-  clusters : List Nat                       -- spike_clusters.npy
+  assign : List (CName × List Nat)          -- the assignment files in the directory, in the order `glob` lists them
   files : List (FName × File)               -- metadata files by name; a later write replaces the file
   subset : Option (C03.SubsetFiles α)       -- `_phy_spikes_subset.{spikes,channels,waveforms}.npy`
   fixed : Fixed α
@@ -70,30 +78,116 @@ def simpleTable (render : Cell → String) (field : String) (data : List (Nat ×
 
 variable {α : Type} [Zero α]
 
+/-- `_find_path('spike_clusters.npy', 'spikes.clusters*.npy', multiple_ok=False, …)`, model.py `_find_path` (l. 482) / `_find_first_existing_path` (l. 251) as of 3b29a81: the
+first file `glob` lists for each of the two patterns; one of them → that file, none → `None`. When BOTH patterns
+match, the code raises IOError (`multiple_ok=False`; such a directory does not load — `Conflict`, out of scope of every
+theorem); here the first pattern is taken. `save_spike_clusters` (model.py l. 1393) resolves its file with the same
+two patterns, so the save goes to the file the loader reads. (Before the repair `fix: save spike clusters to the file
+the loader reads` the save looked for the exact name `spikes.clusters.npy`: a labelled file loaded but could never be
+saved — corpus/C10/pf_c10c_*.) -/
+def findAssign (assign : List (CName × List Nat)) : Option (CName × List Nat) :=
+  match assign.find? (fun p => p.1.isNone) with
+  | some p => some p
+  | none => assign.find? (fun p => p.1.isSome)
+
+/-- both patterns of `_find_path` match: the loader (and the save) raise IOError -/
+def Conflict (assign : List (CName × List Nat)) : Prop :=
+  (∃ p ∈ assign, p.1.isNone) ∧ (∃ p ∈ assign, p.1.isSome)
+
+/-- `np.save(path, spike_clusters)`: the first entry of that name is replaced (a directory has one), a missing
+file is created -/
+def writeAssign (name : CName) (sc : List Nat) : List (CName × List Nat) → List (CName × List Nat)
+  | [] => [(name, sc)]
+  | q :: qs => if q.1 = name then (name, sc) :: qs else q :: writeAssign name sc qs
+
+/-- `_load_spike_clusters()`, model.py l. 615-634: the assignments a load shows — the content of the file found, or of the
+copy of `spike_templates.npy` it creates when there is none -/
+def shown (d : Disk α) : List Nat :=
+  match findAssign d.assign with
+  | some p => p.2
+  | none => d.fixed.spikeTemplates
+
 /-- one operation; `scale` is the multiplication by `sample2unit` -/
 def step (render : Cell → String) (scale : α → α) (d : Disk α) : Op → Disk α
-  | .saveClusters sc => { d with clusters := sc }
+  | .saveClusters sc =>
+    -- `save_spike_clusters`, model.py l. 1393-1399: the file is resolved by name, then overwritten
+    match findAssign d.assign with
+    | some p => { d with assign := writeAssign p.1 sc d.assign }
+    | none => d       -- the code raises IOError (`mandatory`); never after a load, which leaves such a file
   | .saveMeta field m =>
     { d with files := putFile d.files ("cluster_" ++ field, true) (simpleTable render field (cleanMeta m)) }
   | .writeFile name f => { d with files := putFile d.files name f }
   | .saveSubset sel maxN =>
-    -- model.py:1369-1427 (raw data present): ids, channel rows and the chunk-by-chunk export replace the three files
-    { d with subset := some (C03.saveSubset scale d.fixed.raw d.fixed.chunks d.fixed.spikeSamples
-        d.fixed.spikeTemplates d.fixed.orders sel d.fixed.nsw (C03.subsetWidth maxN d.fixed.nClosest)) }
+    -- `save_spikes_subset_waveforms`, model.py l. 1401-1404: without raw data (`self.traces is None`) a warning and an early return, nothing is written;
+    -- l. 1406-1447 (raw data present): ids, channel rows and the chunk-by-chunk export replace the three files
+    if d.fixed.hasRaw then
+      { d with subset := some (C03.saveSubset scale d.fixed.raw d.fixed.chunks d.fixed.spikeSamples
+          d.fixed.spikeTemplates d.fixed.orders sel d.fixed.nsw (C03.subsetWidth maxN d.fixed.nClosest)) }
+    else d
   | .close => d
-  | .reload => d
+  | .reload =>
+    -- `load_model`: the only file of this model a load writes is `spike_clusters.npy`, created as a copy of
+    -- `spike_templates.npy` when no assignment file is found (model.py l. 618-623)
+    match findAssign d.assign with
+    | some _ => d
+    | none => { d with assign := d.assign ++ [(none, d.fixed.spikeTemplates)] }
 
 def run (render : Cell → String) (scale : α → α) (d : Disk α) (ops : List Op) : Disk α :=
   ops.foldl (step render scale) d
 
+/-- a file of the dataset directory that an operation may write -/
+inductive Target where
+  | assign (n : CName)        -- `spike_clusters.npy` / `spikes.clusters<label>.npy`
+  | table (n : FName)         -- a `.tsv` / `.csv` file
+  | subsetStore               -- the three files `_phy_spikes_subset.{spikes,channels,waveforms}.npy`
+deriving Repr, DecidableEq
+
+/-- the files `step` may write (`step_writes_only`); everything else in the directory keeps its bytes -/
+def touched (d : Disk α) : Op → List Target
+  | .saveClusters _ => match findAssign d.assign with | some p => [.assign p.1] | none => []
+  | .saveMeta field _ => [.table ("cluster_" ++ field, true)]
+  | .writeFile name _ => [.table name]
+  | .saveSubset _ _ => if d.fixed.hasRaw then [.subsetStore] else []
+  | .close => []
+  | .reload => match findAssign d.assign with | some _ => [] | none => [.assign none]
+
 /-- `_load_spike_waveforms()` on reload: no files, or a waveform file that does not load → no store -/
 def storeView (d : Disk α) : Option (C03.Store α) := d.subset.bind C03.loadSubset
 
+/-- the class of a parsed id as a DICT KEY: Python compares and hashes `int` and `float` keys by numeric value
+(`1 == 1.0`, `hash(1) == hash(1.0)`, also `0 == -0.0`), strings by content, and a number never equals a string.
+`fnum tok` is the integer the value of the float token `tok` equals, if it is integral (number parsing is transport).
+Not covered: `nan` ids (a `nan` key equals no key, not even itself). -/
+inductive Key where
+  | num (i : Int)
+  | frac (tok : Nat)
+  | str (s : String)
+deriving Repr, DecidableEq
+
+def keyOf (fnum : Nat → Option Int) : Cell → Key
+  | .int i => .num i
+  | .float t => match fnum t with
+    | some i => .num i
+    | none => .frac t
+  | .text s => .str s
+
+/-- `d[k] = v` on a dict kept as an association list in insertion order: an entry with an EQUAL key keeps its key object
+and its place and takes the new value (`{1: 'A'}[1.0] = 'B'` gives `{1: 'B'}`); otherwise the pair is appended -/
+def dictSet (fnum : Nat → Option Int) (k v : Cell) : List (Cell × Cell) → List (Cell × Cell)
+  | [] => [(k, v)]
+  | q :: qs => if keyOf fnum q.1 = keyOf fnum k then (q.1, v) :: qs else q :: dictSet fnum k v qs
+
+/-- `d.get(k)` as the stored (key, value) pair of the class `κ` -/
+def dictGet (fnum : Nat → Option Int) (d : List (Cell × Cell)) (κ : Key) : Option (Cell × Cell) :=
+  d.find? fun q => keyOf fnum q.1 == κ
+
 /-- `load_metadata(file)`: rows with a `cluster_id`, every other non-empty cell becomes
-`out[field][cluster_id] = value` (a later row overwrites an earlier one for the same id). A row is the dict
+`out[field][cluster_id] = value` — a dict assignment keyed by the PARSED id (`dictSet`: a later row with an equal id,
+however it is written — `1`, `01`, `1.0`, `1e0` —, overwrites the value and keeps the first row's key). A row is the dict
 `{k: v for k, v in zip(header, row) if v != ''}` of `read_tsv`: for a repeated column name the LAST non-empty
 cell is the value (so `cluster_id` is looked up from the right) -/
-def loadMetadata (parse : String → Cell) (f : File) : Option (List (String × List (Cell × Cell))) :=
+def loadMetadata (parse : String → Cell) (fnum : Nat → Option Int) (f : File) :
+    Option (List (String × List (Cell × Cell))) :=
   match f with
   | .unreadable => none
   | .table header rows =>
@@ -104,31 +198,30 @@ def loadMetadata (parse : String → Cell) (f : File) : Option (List (String × 
       | some cid =>
         (row.filter fun p => p.1 != "cluster_id").foldl (fun out2 p =>
           let old := (out2.lookup p.1).getD []
-          let upd := (old.filter fun q => q.1 != parse cid) ++ [(parse cid, parse p.2)]
-          (out2.filter fun q => q.1 != p.1) ++ [(p.1, upd)]) out) [])
+          (out2.filter fun q => q.1 != p.1) ++ [(p.1, dictSet fnum (parse cid) (parse p.2) old)]) out) [])
 
 /-- the loader's treatment of one visited file: `cluster_info` skipped, an unreadable file skipped,
 `metadata[field] = data` for every field of the file (replaces the whole field) -/
-def viewStep (parse : String → Cell) (acc : List (String × List (Cell × Cell))) (p : FName × File) :
+def viewStep (parse : String → Cell) (fnum : Nat → Option Int) (acc : List (String × List (Cell × Cell))) (p : FName × File) :
     List (String × List (Cell × Cell)) :=
   if p.1.1 == "cluster_info" then acc else
-  match loadMetadata parse p.2 with
+  match loadMetadata parse fnum p.2 with
   | none => acc
   | some fields => fields.foldl (fun a fd => (a.filter fun q => q.1 != fd.1) ++ [fd]) acc
 
 /-- `_load_metadata()` given the list of files in the order the loader visits them -/
-def metadataViewIn (parse : String → Cell) (visit : List (FName × File)) : List (String × List (Cell × Cell)) :=
-  visit.foldl (viewStep parse) []
+def metadataViewIn (parse : String → Cell) (fnum : Nat → Option Int) (visit : List (FName × File)) : List (String × List (Cell × Cell)) :=
+  visit.foldl (viewStep parse fnum) []
 
 /-- `_load_metadata()`: all `*.csv` files first, then all `*.tsv` files (`files = list(glob('*.csv'));
 files.extend(glob('*.tsv'))`, so that the TSV files phy writes win over legacy CSV files), each group in the order
 of the directory listing `files` (which `glob` does not specify) -/
-def metadataView (parse : String → Cell) (files : List (FName × File)) :
+def metadataView (parse : String → Cell) (fnum : Nat → Option Int) (files : List (FName × File)) :
     List (String × List (Cell × Cell)) :=
-  metadataViewIn parse ((files.filter fun p => !p.1.2) ++ (files.filter fun p => p.1.2))
+  metadataViewIn parse fnum ((files.filter fun p => !p.1.2) ++ (files.filter fun p => p.1.2))
 
 /-- what a freshly loaded model shows -/
-def view (parse : String → Cell) (d : Disk α) : List Nat × List (String × List (Cell × Cell)) :=
-  (d.clusters, metadataView parse d.files)
+def view (parse : String → Cell) (fnum : Nat → Option Int) (d : Disk α) : List Nat × List (String × List (Cell × Cell)) :=
+  (shown d, metadataView parse fnum d.files)
 
 end PhyVerif.C10
